@@ -371,6 +371,12 @@ fn generate(full: bool) -> String {
             b = s1
         );
         g.case("derive-generic", &format!("{}<'a, 'static, R<0>>", name), &e, 2, &prelude);
+        // a second instantiation of the same generic struct: what it declares follows ITS type argument
+        {
+            let sub = |v: &Vec<usize>| -> Vec<usize> { v.iter().map(|x| if *x == 0 { 2 } else { *x }).collect() };
+            let e3 = Exp { reads: sub(&e.reads), writes: sub(&e.writes), opt: sub(&e.opt), dflt: sub(&e.dflt), need: sub(&e.need), custom: sub(&e.custom), ..e.clone() };
+            g.case("derive-generic-second-instantiation", &format!("{}<'a, 'static, R<2>>", name), &e3, 3, "");
+        }
         // nested: derived struct inside a tuple inside a derived tuple struct
         let mut e2 = e.clone();
         let mut s2 = String::new();
